@@ -282,6 +282,8 @@ def run_case(ctx, i, rng):
     password = 'Pw-' + ''.join(rng.choice('abcdefghjkmnpqrstuvwxyz23456789')
                                for _ in range(16))
     creds = ('vfuser', password)
+    if rng.random() < 0.1:
+        creds = ['vfuser', password]    # a list is accepted as well
     target = rng.choice([0, 0, 1])
     recorded = []          # answers given in the bare run
     state = {'n': 0}
@@ -519,7 +521,7 @@ def run_case(ctx, i, rng):
         with open(logfile, encoding='utf-8', errors='replace') as f:
             hay.append(('log-file', f.read()))
         os.remove(logfile)
-    b64 = base64.b64encode(('%s:%s' % creds).encode()).decode()
+    b64 = base64.b64encode(('%s:%s' % tuple(creds)).encode()).decode()
     ctx.count('password-scanned')
     for where, text in hay:
         if password in text or b64 in text:
